@@ -67,7 +67,11 @@ func runGated(ops []string) string {
 		handled = append(handled, id)
 		mu.Unlock()
 	}
-	q := taskqueue.New(taskqueue.Workers(workers), taskqueue.Depth(depth), taskqueue.RecoveryHandler(handler))
+	opts := []taskqueue.Option{taskqueue.Workers(workers), taskqueue.Depth(depth)}
+	if len(f) < 6 || f[5] != "nohandler" { // the default is no handler: a panicking task is recovered silently
+		opts = append(opts, taskqueue.RecoveryHandler(handler))
+	}
+	q := taskqueue.New(opts...)
 	allowed := make(chan int, 64)
 	go func() { // the submitter
 		limit := 0
@@ -200,7 +204,12 @@ func runFree(f []string) string {
 		mu.Unlock()
 		atomic.AddInt32(&handledCount, 1)
 	}
-	q := taskqueue.New(taskqueue.Workers(workers), taskqueue.Depth(depth), taskqueue.RecoveryHandler(handler))
+	withHandler := len(f) < 8 || f[7] != "nohandler"
+	opts := []taskqueue.Option{taskqueue.Workers(workers), taskqueue.Depth(depth)}
+	if withHandler {
+		opts = append(opts, taskqueue.RecoveryHandler(handler))
+	}
+	q := taskqueue.New(opts...)
 	var wg sync.WaitGroup
 	var seq int64
 	submitSeq := make([]int64, total) // stamp taken after Submit returned
@@ -289,6 +298,9 @@ func runFree(f []string) string {
 	if int(handledCount) != wantHandled {
 		handledOK = 0
 	}
+	if !withHandler {
+		handledOK = hx.Atoi(hx.B2i(handledCount == 0))
+	}
 	return fmt.Sprintf("once=%d maxok=%s order=%d handled=%d sdafter=%s", once, hx.B2i(int(maxRunning) <= workers), orderOK, handledOK,
 		hx.B2i(int(finishedAtReturn) == total))
 }
@@ -315,8 +327,8 @@ func gen(r *hx.Rand, n int) []string {
 	cin := runtime.NumCPU() * 2
 	for i := 0; i < n; i++ {
 		if i%4 == 3 {
-			out = append(out, fmt.Sprintf("free %d %d %d %d %d %d", []int{1, 1, 2, 3, 8}[r.Intn(5)], []int{-1, 0, 0, 1, 2, 5, 100}[r.Intn(7)],
-				r.Range(1, 8), r.Range(1, 40), []int{0, 0, 3, 7}[r.Intn(4)], []int{1, 2, 4, 16}[r.Intn(4)]))
+			out = append(out, fmt.Sprintf("free %d %d %d %d %d %d %s", []int{1, 1, 2, 3, 8}[r.Intn(5)], []int{-1, 0, 0, 1, 2, 5, 100}[r.Intn(7)],
+				r.Range(1, 8), r.Range(1, 40), []int{0, 0, 3, 7}[r.Intn(4)], []int{1, 2, 4, 16}[r.Intn(4)], []string{"handler", "handler", "nohandler"}[r.Intn(3)]))
 			continue
 		}
 		workers := []int{1, 1, 2, 3}[r.Intn(4)]
@@ -336,7 +348,7 @@ func gen(r *hx.Rand, n int) []string {
 		if len(pan) > 0 {
 			ps = strings.Join(pan, ",")
 		}
-		ops := []string{fmt.Sprintf("cfg %d %d %d %s", workers, depth, total, ps)}
+		ops := []string{fmt.Sprintf("cfg %d %d %d %s %s", workers, depth, total, ps, []string{"handler", "handler", "nohandler"}[r.Intn(3)])}
 		allowed := 0
 		var unreleased []int
 		for t := 0; t < total; t++ {
